@@ -242,6 +242,8 @@ def run(db, rep, tier):
     rep.rule("sound-find", "F(T) in A(K) => T is K or a base of K (find_pdu<T> static_casts an object of class K to T*)", 2000)
     rep.rule("sound-cast", "F(T) == P(K) => T is K or a base of K (tins_cast<T> static_casts an object of class K to T)", 2000)
     rep.rule("own", "F(K) in A(K): a search by an object's own exact class finds it", 50)
+    rep.rule("helpers", "find_pdu / tins_cast hand back only the object whose flag test succeeded: every returned pointer is null or a "
+                        "static_cast of the tested object, guarded by matches_flag(type) / T::pdu_flag == pdu_type() on that object", 8)
     base = with_cachers(db)
     K_all = concrete_pdus(db)
     cachers = [k for k in K_all if k.startswith("Tins::PDUCacher<")]
@@ -314,6 +316,7 @@ def run(db, rep, tier):
                               "accepted set %s" % (K, F[K], sorted(A)))
         else:
             rep.analysis_broken("concrete class %s has no pdu_flag" % K)
+    helpers(db, rep, F)
     rep.extra["exhaustive"] = True
     rep.extra["classes_K"] = len(K_all)
     rep.extra["classes_T"] = len(T_all)
@@ -326,3 +329,83 @@ def run(db, rep, tier):
                        % (len(K_all), len(cachers), len(T_all)))
     rep.assumptions += ["user-defined PDU subclasses outside libtins are not part of the quantifier",
                         "find_pdu<T>(type) is called with its default argument T::pdu_flag"]
+
+
+def helpers(db, rep, F):
+    """The table above decides soundness GIVEN what the helper templates do; this rule decides what they do, on every
+    instantiation the library itself makes."""
+    from vlib import cfg, cond
+    n = 0
+    for fid, f in sorted(db.functions.items()):
+        is_find = fid.startswith("Tins::PDU::find_pdu<") and not fid.rstrip().endswith("const")
+        is_cast = fid.startswith("Tins::tins_cast<") and "*" in fid.split("(")[0]
+        if not (is_find or is_cast) or not f.get("body"):
+            continue
+        n += 1
+        key = "%s" % fid.replace("Tins::", "")[:110]
+        g = cfg.FnCFG(f)
+        rets = [x for x in facts.fn_nodes(f) if x["k"] == "ReturnStmt" and x.get("c")]
+        bad = None
+        casts = 0
+        # operands of the returned value: split conditionals
+        def leaves(e):
+            e0 = strip(e)
+            if e0["k"] == "ConditionalOperator":
+                return leaves(e0["c"][1]) + leaves(e0["c"][2])
+            return [e0]
+        params = set(p_["var"] for p_ in f["params"])
+        tparam = [p_["var"] for p_ in f["params"] if p_["name"] == "type"]
+        for r in rets:
+            for v in leaves(r["c"][0]):
+                if facts.cval(v) == 0 or v["k"] in ("CXXNullPtrLiteralExpr", "GNUNullExpr", "IntegerLiteral"):
+                    continue
+                if v["k"] != "CXXStaticCastExpr":
+                    bad = "returns `%s`: not the tested object itself (nor null) - the helper can hand back another object than the one " \
+                          "whose type flag it compared" % facts.expr_str(v)[:70]
+                    break
+                x = facts.strip_all(v["c"][0])
+                if x["k"] != "DeclRefExpr" or not x.get("var"):
+                    bad = "casts `%s`, not a plain object variable" % facts.expr_str(v["c"][0])[:60]
+                    break
+                casts += 1
+                if is_cast and x["var"] not in params:
+                    bad = "tins_cast returns a cast of `%s`, not of its argument" % x.get("name")
+                    break
+                gf = cond.guards_facts(g, g.pos(v))
+                okg = False
+                for op, l, rr in gf:
+                    if is_find and op == "true":
+                        c = strip(l)
+                        if c["k"] == "CXXMemberCallExpr" and c.get("cname") == "matches_flag" and len(c["c"]) == 2:
+                            obj = facts.strip_all(c["c"][0]["c"][0]) if c["c"][0].get("c") else None
+                            arg = facts.strip_all(c["c"][1])
+                            if obj is not None and obj.get("var") == x["var"] and arg.get("var") in tparam:
+                                okg = True
+                    if is_cast and op == "==" and rr is not None:
+                        for a, b in ((l, rr), (rr, l)):
+                            b0 = strip(b)
+                            if facts.cval(a) is not None and b0["k"] == "CXXMemberCallExpr" and b0.get("cname") == "pdu_type":
+                                obj = facts.strip_all(b0["c"][0]["c"][0]) if b0["c"][0].get("c") else None
+                                if obj is not None and obj.get("var") == x["var"]:
+                                    okg = True
+                if not okg:
+                    bad = "the cast of `%s` is not guarded by %s on that same object" % (
+                        x.get("name"), "matches_flag(type)" if is_find else "T::pdu_flag == pdu_type()")
+                    break
+            if bad:
+                break
+        if not bad and is_find:
+            # the cursor only walks this -> inner_pdu()
+            for x in facts.fn_nodes(f):
+                if x["k"] == "BinaryOperator" and x.get("op") == "=" and strip(x["c"][0])["k"] == "DeclRefExpr":
+                    rhs = strip(x["c"][1])
+                    if not (rhs["k"] == "CXXMemberCallExpr" and rhs.get("cname") == "inner_pdu"):
+                        bad = "the search cursor is assigned `%s`" % facts.expr_str(rhs)[:60]
+        if not bad and casts == 0:
+            bad = "no guarded cast of the tested object is returned any more"
+        if bad:
+            rep.violation("helpers", key, facts.loc(f), bad)
+        else:
+            rep.ok("helpers", key, facts.loc(f), "%d guarded cast(s), otherwise null" % casts)
+    if n < 8:
+        rep.analysis_broken("only %d find_pdu / tins_cast instantiations found" % n)
